@@ -103,9 +103,9 @@ MANIFEST_TEXT = {
         level_note="Trusted: vsched.cpp; the trace order of a serialised execution. Schedules are sampled; in addition every schedule with at most 2 (thorough: 3) preemptions of five tiny two-thread programs with flushes is enumerated, without time jumps; for the three-thread program (two producers) the bound is 1 in the quick tier (complete) and 2 in the thorough tier, where the recorded run was stopped by its wall-clock share after 327 438 schedules (reported as complete: false in the evidence - a budget never decides a verdict)."),
     "C06": dict(
         engine="rapidcheck + deterministic scheduler",
-        technique="schedule exploration on a deterministic scheduler with virtual time (interposed pthread/sleep/clock, queue, memcpy and I/O points): sampled schedules x generated programs (shrinking) + bounded-preemption enumeration of all schedules of tiny programs; differential against the synchronous writer; history invariants over the execution trace",
-        level_text="Library threads and application threads are real pthreads serialised by a baton; the generated choice vector decides who runs at every lock/unlock/wait/signal/sleep, queue operation, half-copied message and backend I/O call, time jumps let sleepers overtake and per-I/O latencies of 6 s/25 s fire the 5 s send and 20 s flush timeouts in virtual time. Checked per run: applied calls == accepted submissions per producer in order (nothing lost, duplicated, reordered; rejected calls leave no trace), file content == synchronous reference (dump + decoder), queue operations only under the queue lock, writer calls only under the process lock, deadlock / no-progress detection.",
-        level_note="Trusted: vsched.cpp (about 450 lines), the synchronous writer as reference (C01-C05). Schedules are sampled; in addition every schedule with at most 2 (thorough: 3) preemptions of five tiny programs is enumerated (three-thread program: 1 / 2), see coverage.exhaustive_subspace in the evidence."),
+        technique="schedule exploration on a deterministic scheduler with virtual time (interposed pthread/sleep/clock, queue, memcpy and I/O points): sampled schedules (uniform choice vectors and PCT-style priority schedules) x generated programs (shrinking) + bounded-preemption enumeration of all schedules of tiny programs; the same generated programs on real threads in a ThreadSanitizer build (data races on the queue / writer state = violation); differential against the synchronous writer; history invariants over the execution trace",
+        level_text="Library threads and application threads are real pthreads serialised by a baton; the generated choice vector (or priority schedule with change points) decides who runs at every lock/unlock/wait/signal/sleep, queue operation, half-copied message and backend I/O call, time jumps let sleepers overtake and per-I/O latencies of 6 s/25 s fire the 5 s send and 20 s flush timeouts in virtual time. Checked per run: applied calls == accepted submissions per producer in order (nothing lost, duplicated, reordered; rejected calls leave no trace), file content == synchronous reference (dump + decoder), queue operations only under the queue lock, writer calls only under the process lock, deadlock / no-progress detection. Real-thread part: 4 x 150 (thorough 6 x 3000) programs on genuine pthreads under ThreadSanitizer, reports judged by address, file content == synchronous reference.",
+        level_note="Trusted: vsched.cpp (about 500 lines), ThreadSanitizer's happens-before analysis, the synchronous writer as reference (C01-C05). Schedules are sampled; in addition every schedule with at most 2 (thorough: 3) preemptions of five tiny programs is enumerated (three-thread program: 1 / 2), see coverage.exhaustive_subspace in the evidence."),
     "C10": dict(
         engine="rapidcheck + libFuzzer",
         technique="structure-aware API-sequence fuzzing: one decoder from a tape of choices to call sequences over the whole public surface, driven by rapidcheck (shrinking) and by libFuzzer (coverage guidance), ASan/LSan + return-code oracle inside the target",
@@ -117,7 +117,7 @@ MANIFEST_TEXT = {
         level_note="Trusted: dump comparator, decoder region map, in-memory VFS. Most workers run an -O2 build for throughput, one in four runs ASan."),
     "C02": dict(
         technique="model-based property testing: generated definitions/streams reaching 1-5 summary levels x generated (start, increment, count) requests against exact long-double window statistics with stated tolerances",
-        level_text="Streams up to ~350k samples reach up to 5 summary levels; requests use increments around sdf*sumdf^k (x1, x0.999, x1.001, x2.5), counts 1/2/24/25/26/100 and starts aligned or unaligned to entries, blocks and summary chunks, incl. windows ending at the last sample. count=1: min/max exact, mean within tolerance, std within [sqrt((d-1)/d)*sigma, sigma]; count>1: every entry within the extremes of its window widened by one increment, average of means equals the exact range mean; errors inside the signal are violations for <= 32-bit types.",
+        level_text="Streams up to ~350k samples (one case in sixty: > 1 M samples with a level-1 summary chunk beyond 1 MiB) reach up to 5 summary levels; one case in six is left unclosed so that the reader serves summaries it rebuilt during repair; requests use increments around sdf*sumdf^k (x1, x0.999, x1.001, x2.5), counts 1/2/24/25/26/100 and starts aligned or unaligned to entries, blocks and summary chunks, incl. windows ending at the last sample. count=1: min/max exact, mean within tolerance, std within [sqrt((d-1)/d)*sigma, sigma]; count>1: every entry within the extremes of its window widened by one increment, average of means equals the exact range mean; errors inside the signal are violations for <= 32-bit types.",
         level_note="Trusted: long-double two-pass reference and the frozen tolerances (calibrated on the fixed tree over several seeds)."),
     "C15": dict(
         technique="two-run relational (metamorphic) property testing with the independent decoder: same stream with and without omission; model-based reads for <= 8-bit constant-block patterns",
